@@ -560,6 +560,18 @@ def rf37(run, unit, entries):
                     pv = int(prec)
                 a = args[ai] if ai < len(args) else None
                 ai += 1
+                if a is not None and c not in 'eEgGfFaA':
+                    # a floating value pushed through an integer conversion loses -0.0, NaN, infinities and fractions
+                    lossy = [y for y in F.walk(a) if y.get('ck') == 'FloatingToIntegral']
+                    if lossy:
+                        n += 1
+                        run.functions_analysed.add((unit, fn))
+                        run.ob(rule, (unit, fn, x['l'], m.start(), 'int'), False, {'site': '%s:%d' % (f.relfile(), x['l']), 'conversion': m.group(0),
+                                                                                  'argument': F.src(a, casts=True)[:60]})
+                        run.violation(rule, f, 'floating value printed through %s' % m.group(0),
+                                      '%s prints a floating-point value converted to an integer (%s): the sign of -0.0 (and any value that '
+                                      'is not exactly that integer) is lost, so the text does not denote the MIR value'
+                                      % (fn, F.src(a, casts=True)[:60]), line=x['l'])
                 if c not in 'eEgGfFaA' or a is None:
                     continue
                 at = tu.type(F.strip(a, explicit=False))
